@@ -2250,10 +2250,13 @@ class Scheduler:
             allowed_cache_results,
         )
 
-        if cache_type == CacheResult.CSE:
+        if cache_type == CacheResult.CSE and self._has_valid_handles(result):
             # If this is a CSE hit, we can use the result immediately. The result may be
             # an error wrapped as a `ErrorValue`, but we can still use it.
             return result, True, call_hash
+        elif cache_type == CacheResult.CSE:
+            # A Handle state that was rolled back since must be derived again.
+            return None, False, None
         elif isinstance(result, ErrorValue):
             # Errors can't be used from the backend cache.
             return None, False, None
@@ -2347,6 +2350,14 @@ class Scheduler:
         This method should only be used by the scheduler or `SchedulerTask`s
         """
         self.backend.set_eval_cache(eval_hash, task_hash, args_hash, value, value_hash=None)
+
+    def _has_valid_handles(self, value: Any) -> bool:
+        """
+        Returns True if all Handles within the nested value are valid.
+        """
+        return all(
+            handle.is_valid() for handle in iter_nested_value(value) if isinstance(handle, Handle)
+        )
 
     def _is_valid_value(self, value: Any) -> bool:
         """
